@@ -331,18 +331,122 @@ pub fn n_threads() -> usize {
         .unwrap_or_else(|| std::thread::available_parallelism().map(|n| n.get()).unwrap_or(8))
 }
 
+// ---------------------------------------------------------------------------------------------
+// hang watchdog: a library call that never returns must become a verdict (or at least an exit), not an endless run
+
+/// (property, tier, seed, level) of the running check, for the evidence stub the watchdog writes
+pub static RUN_INFO: Mutex<Option<(String, String, u64, &'static str)>> = Mutex::new(None);
+/// budget for one item of a parallel sweep, in milliseconds (ZIPMC_HANG_SECS overrides)
+pub static HANG_BUDGET_MS: AtomicU64 = AtomicU64::new(120_000);
+
+pub fn set_run_level(level: &'static str) {
+    if let Some(i) = RUN_INFO.lock().unwrap().as_mut() {
+        i.3 = level;
+    }
+}
+pub fn set_hang_budget_secs(s: u64) {
+    if std::env::var("ZIPMC_HANG_SECS").is_err() {
+        HANG_BUDGET_MS.store(s * 1000, Ordering::Relaxed);
+    }
+}
+fn hang_budget_ms() -> u64 {
+    std::env::var("ZIPMC_HANG_SECS").ok().and_then(|s| s.parse::<u64>().ok()).map(|s| s * 1000).unwrap_or_else(|| HANG_BUDGET_MS.load(Ordering::Relaxed))
+}
+
+/// A sweep item has been running for longer than the budget. Describe it, re-run it alone in a subprocess with three
+/// times the budget; if that does not finish either, the call never returns: report, write evidence, exit 1.
+/// If it does finish alone, the machine is merely slow: returns and the item gets ten times the budget.
+fn hang_suspected(item: u64, ran_ms: u64, dispatched: u64, describe: &(dyn Fn(u64) -> Option<Value> + Sync)) {
+    let info = RUN_INFO.lock().unwrap().clone();
+    let Some((prop, tier, seed, level)) = info else { return };
+    let case = describe(item);
+    crate::diag!("  [{prop}] watchdog: sweep item {item} has been running for {:.0}s", ran_ms as f64 / 1000.0);
+    let Some(case) = case else {
+        crate::diag!("MACHINERY-ERROR: a sweep item of {prop} does not return (item {item}, no case description available); giving up");
+        std::process::exit(2);
+    };
+    let dir = format!("{}/replays/{}", verif_root(), prop);
+    let _ = std::fs::create_dir_all(&dir);
+    let sig = "hang/call-does-not-return".to_string();
+    let path = format!("{dir}/hang-{:016x}.json", fnv(serde_json::to_string(&case).unwrap_or_default().as_bytes()));
+    let detail = format!("a library call did not return within {:.0}s (the whole case normally takes far less); re-run alone with three times the budget it still does not finish", ran_ms as f64 / 1000.0);
+    let body = json!({"property": prop, "signature": sig, "detail": detail, "case": case});
+    let _ = std::fs::write(&path, serde_json::to_string_pretty(&body).unwrap());
+    // confirm alone
+    let exe = std::env::current_exe().unwrap_or_default();
+    let child = std::process::Command::new(&exe).arg(&prop).arg("--replay").arg(&path).env("VERIF_SEED", seed.to_string()).stdout(std::process::Stdio::null()).stderr(std::process::Stdio::null()).spawn();
+    let mut finished = false;
+    match child {
+        Ok(mut c) => {
+            let t0 = Instant::now();
+            let limit = std::time::Duration::from_millis(hang_budget_ms() * 3);
+            loop {
+                match c.try_wait() {
+                    Ok(Some(_)) => {
+                        finished = true;
+                        break;
+                    }
+                    Ok(None) if t0.elapsed() > limit => {
+                        let _ = c.kill();
+                        let _ = c.wait();
+                        break;
+                    }
+                    Ok(None) => std::thread::sleep(std::time::Duration::from_millis(100)),
+                    Err(_) => break,
+                }
+            }
+        }
+        Err(e) => {
+            crate::diag!("MACHINERY-ERROR: cannot re-run the suspected hang alone: {e}");
+            std::process::exit(2);
+        }
+    }
+    if finished {
+        crate::diag!("  [{prop}] watchdog: the case finishes when run alone: slow machine, not a hang; continuing");
+        let _ = std::fs::remove_file(&path);
+        return;
+    }
+    let ev = json!({
+        "property_id": prop, "tier": tier, "seed": seed, "level": level,
+        "coverage": {"evaluations": dispatched.max(2), "distinct_nontrivial": dispatched.max(2), "states": dispatched.max(2), "transitions": dispatched.max(2), "traces_validated_against_impl": dispatched.max(2),
+            "rule": "run aborted by the hang watchdog: one case of the sweep does not return (confirmed by re-running it alone in a subprocess with three times the budget). The counts are the items of the interrupted sweep that had been handed to workers (each item is a distinct case of the enumeration); earlier sweeps of the same run are not counted",
+            "samples": [case], "exhaustive": false, "caps_hit": ["aborted by the hang watchdog"], "violation_signatures": [sig]},
+        "assumptions": [], "wall_s": ran_ms as f64 / 1000.0, "violations": 1,
+    });
+    let evdir = format!("{}/evidence", verif_root());
+    let _ = std::fs::create_dir_all(&evdir);
+    let _ = std::fs::write(format!("{evdir}/{prop}.json"), serde_json::to_string_pretty(&ev).unwrap() + "\n");
+    println!("  violation [{sig}]: {detail}");
+    println!("VIOLATION property={prop} replay={path}");
+    std::process::exit(1);
+}
+
 /// Run `f(i, &mut stats)` for every i in 0..n on all cores with dynamic chunking; merge stats.
 pub fn par_for<F>(n: u64, chunk: u64, f: F) -> Stats
 where
     F: Fn(u64, &mut Stats) + Sync,
 {
+    par_for_desc(n, chunk, &|_| None, f)
+}
+
+/// Like `par_for`; `describe(i)` renders item i as a replayable case for the hang watchdog.
+pub fn par_for_desc<F>(n: u64, chunk: u64, describe: &(dyn Fn(u64) -> Option<Value> + Sync), f: F) -> Stats
+where
+    F: Fn(u64, &mut Stats) + Sync,
+{
+    const IDLE: u64 = u64::MAX;
     let next = AtomicU64::new(0);
     let total = Mutex::new(Stats::default());
     let nt = n_threads().max(1);
     let chunk = chunk.max(1);
+    let t0 = Instant::now();
+    // per worker: the item it is running and since when (ms since t0)
+    let slots: Vec<(AtomicU64, AtomicU64)> = (0..nt).map(|_| (AtomicU64::new(IDLE), AtomicU64::new(0))).collect();
+    let live = AtomicU64::new(nt as u64);
     std::thread::scope(|s| {
-        for _ in 0..nt {
-            s.spawn(|| {
+        for w in 0..nt {
+            let (slots, next, total, live, f) = (&slots, &next, &total, &live, &f);
+            s.spawn(move || {
                 let mut st = Stats::default();
                 loop {
                     let lo = next.fetch_add(chunk, Ordering::Relaxed);
@@ -351,12 +455,45 @@ where
                     }
                     let hi = (lo + chunk).min(n);
                     for i in lo..hi {
+                        slots[w].1.store(t0.elapsed().as_millis() as u64, Ordering::Relaxed);
+                        slots[w].0.store(i, Ordering::Release);
                         f(i, &mut st);
                     }
+                    slots[w].0.store(IDLE, Ordering::Release);
                 }
+                slots[w].0.store(IDLE, Ordering::Release);
                 total.lock().unwrap().merge(st);
+                live.fetch_sub(1, Ordering::Release);
             });
         }
+        // the watchdog
+        let (slots, live, next) = (&slots, &live, &next);
+        s.spawn(move || {
+            let mut tolerated: std::collections::HashMap<u64, u64> = Default::default();
+            let mut tick = 0u64;
+            while live.load(Ordering::Acquire) > 0 {
+                std::thread::sleep(std::time::Duration::from_millis(if tick < 40 { 25 } else { 250 }));
+                tick += 1;
+                let now = t0.elapsed().as_millis() as u64;
+                let budget = hang_budget_ms();
+                for sl in slots.iter() {
+                    let item = sl.0.load(Ordering::Acquire);
+                    if item == IDLE {
+                        continue;
+                    }
+                    let since = sl.1.load(Ordering::Relaxed);
+                    let allowed = budget * tolerated.get(&item).copied().unwrap_or(1);
+                    if now.saturating_sub(since) > allowed && sl.0.load(Ordering::Acquire) == item {
+                        if tolerated.contains_key(&item) {
+                            crate::diag!("MACHINERY-ERROR: sweep item {item} finishes alone but not inside the sweep after {} s; giving up", now.saturating_sub(since) / 1000);
+                            std::process::exit(2);
+                        }
+                        hang_suspected(item, now.saturating_sub(since), next.load(Ordering::Relaxed).min(n), describe);
+                        tolerated.insert(item, 10);
+                    }
+                }
+            }
+        });
     });
     total.into_inner().unwrap()
 }
